@@ -161,6 +161,12 @@ def canon(n, env=None, depth=0, subst=True):
                 # only substitute value-like pure initialisers (no loop variables, no containers being built)
                 if _pure(d):
                     return canon(d, env, depth + 1, subst)
+        elif n.get('refk') == 'Var' and n.get('local') is not False and env is not None and not subst and getattr(env, 'alias', False) and depth < 8 \
+                and n.get('dloc') not in env.rename:
+            # alias mode (clause schemas): a local WITHOUT a role that is a pure, never re-assigned definition is just a name for its initialiser
+            d = env.definition(n)
+            if d is not None and n.get('dloc') not in getattr(env, 'no_alias', ()):
+                return canon(d, env, depth + 1, subst)
         if n.get('refk') == 'EnumConstant':
             return n['ref'].rsplit('::', 1)[-1]
         if n.get('refk') in ('Function', 'CXXMethod'):
